@@ -147,8 +147,19 @@ fn bi(id: u16, name: &'static str) -> Value {
     Value::Builtin(Builtin { id, name })
 }
 
+impl Drop for Interp {
+    fn drop(&mut self) {
+        // release this interpreter's own roots, then break the reference cycles among what it allocated
+        self.proxies.clear();
+        self.require_hook = None;
+        self.chunk_args.clear();
+        super::value::interp_dropped();
+    }
+}
+
 impl Interp {
     pub fn new(dialect: Dialect, fuel: i64) -> Interp {
+        super::value::interp_created();
         let mut it = Interp {
             dialect,
             fuel_start: fuel,
@@ -158,9 +169,9 @@ impl Interp {
             next_id: 1,
             ext_calls: 0,
             hostile_count: 0,
-            globals: Rc::new(TableObj { id: 0, hostile: 0, data: RefCell::new(TableData::default()) }),
-            string_lib: Rc::new(TableObj { id: 0, hostile: 0, data: RefCell::new(TableData::default()) }),
-            hostile_mt: Rc::new(TableObj { id: 0, hostile: 0, data: RefCell::new(TableData::default()) }),
+            globals: TableObj::alloc(0, 0),
+            string_lib: TableObj::alloc(0, 0),
+            hostile_mt: TableObj::alloc(0, 0),
             depth: 0,
             universal: false,
             max_log: 4000,
@@ -180,7 +191,7 @@ impl Interp {
     pub fn new_table(&mut self) -> Rc<TableObj> {
         let id = self.next_id;
         self.next_id += 1;
-        Rc::new(TableObj { id, hostile: 0, data: RefCell::new(TableData::default()) })
+        TableObj::alloc(id, 0)
     }
 
     fn setg(&self, name: &str, v: Value) {
@@ -1259,7 +1270,7 @@ impl Interp {
         self.hostile_count += 1;
         let id = self.next_id;
         self.next_id += 1;
-        let t = Rc::new(TableObj { id, hostile: self.hostile_count, data: RefCell::new(TableData::default()) });
+        let t = TableObj::alloc(id, self.hostile_count);
         t.data.borrow_mut().meta = Some(self.hostile_mt.clone());
         Value::Table(t)
     }
